@@ -17,6 +17,11 @@ def run(ctx):
                         "NaN inputs are outside the property (specification: unspecified) but still compared with the model",
                         "Flocq's 4 standard-library axioms appear under the float theorems"]
     ctx.prove("Props/C05.v")
+    # tie 1 (translator): the kernels this property speaks about, regenerated from op_*.rs, ARE the model (Props/C05Gen.v);
+    # a difference is reported as broken and the correspondence runs below search for the concrete input
+    ctx.translate(steps=("kernels",))
+    ctx.prove("Props/C05Gen.v")
+
     symrun.run(ctx, kernels=KERNELS)
     thorough = ctx.tier == "thorough"
     exprun.run_property(ctx, "C:minmax", "C05", ops=OPS,
